@@ -11,12 +11,24 @@ ASSUMPTIONS = ["signatures present are non-malleable (ground-truth table)"]
 
 
 def variant(rng, mats, prods):
-    kind = rng.choice(["mat_hash", "prod_hash", "mat_extra", "prod_extra", "prod_missing", "prod_rename", "prod_alias", "prod_alias", "mat_alias"])
+    kind = rng.choice(["mat_hash", "prod_hash", "mat_extra", "prod_extra", "prod_missing", "prod_rename", "prod_alias", "prod_alias", "mat_alias",
+                       "prod_other_algorithm", "prod_other_algorithm", "mat_other_algorithm", "prod_empty_record", "prod_more_algorithms"])
     m, p = {k: dict(v) for k, v in mats.items()}, {k: dict(v) for k, v in prods.items()}
     if kind == "mat_hash" and m:
         m[rng.choice(sorted(m))] = {"sha256": "ab" * 32}
     elif kind == "prod_hash" and p:
         p[rng.choice(sorted(p))] = {"sha256": "cd" * 32}
+    elif kind in ("prod_other_algorithm", "mat_other_algorithm", "prod_empty_record", "prod_more_algorithms") and (m if kind.startswith("mat") else p):
+        # the same path with a hash record that shares no algorithm with the others' (another tool, other settings), with no
+        # digest at all, or with one digest more: not the identical record - this link reports something else
+        d = m if kind.startswith("mat") else p
+        k = rng.choice(sorted(d))
+        if kind.endswith("other_algorithm"):
+            d[k] = {"sha512": "5a" * 64}
+        elif kind == "prod_empty_record":
+            d[k] = {}
+        else:
+            d[k] = dict(d[k], md5="0f" * 16)
     elif kind == "mat_extra":
         m["extra-m"] = {"sha256": "11" * 32}
     elif kind == "prod_missing" and len(p) > 1:
